@@ -734,7 +734,12 @@ fn multi_package(ws: &Workspace) -> (Vec<PkgSpec>, Vec<usize>) {
 }
 
 fn run_c08_case(rep: &mut Report, ws: &Workspace, case_seed: u64, r: &mut Rng, per_ws: usize) {
-    let (pkgs, pkg_of_module) = multi_package(ws);
+    let (mut pkgs, pkg_of_module) = multi_package(ws);
+    // a free-standing copy of module 0: a file below no gleam.toml, in no package of the graph
+    // (what the server makes of a lone .gleam file). Judged there: invalid names are refused and
+    // prepare-rename agrees with rename.
+    const FREE: &str = "/free/solo.gleam";
+    pkgs.push(ws::PkgSpec { root: "/free".into(), name: "free".into(), is_local: true, deps: vec![], files: vec![(FREE.into(), ws.printed[0].text.clone())] });
     let loaded = ws::load_packages(&pkgs);
     let an = loaded.host.snapshot();
     let all_files: Vec<(String, String)> = pkgs.iter().flat_map(|p| p.files.iter().cloned()).collect();
@@ -755,7 +760,8 @@ fn run_c08_case(rep: &mut Report, ws: &Workspace, case_seed: u64, r: &mut Rng, p
     let _ = all_files;
     for (mi, oi) in cands {
         let occ = &ws.printed[mi].occs[oi];
-        let file = loaded.file_by_path(&module_path(mi)).unwrap();
+        let free = mi == 0 && r.chance(1, 3);
+        let file = loaded.file_by_path(if free { FREE.to_string() } else { module_path(mi) }.as_str()).unwrap();
         // the cursor: at the start of the name, inside it, or right behind its last character
         // (where a bar cursor sits after typing or clicking at the end of a word)
         let (at, at_name) = match r.below(3) {
@@ -777,10 +783,10 @@ fn run_c08_case(rep: &mut Report, ws: &Workspace, case_seed: u64, r: &mut Rng, p
         let kind = symbol.map(|d| ws.decls[d].kind);
         let alias_spelling = symbol.map(|d| ws.decls[d].name != occ.ident.text).unwrap_or(false);
         let local = symbol.map(|d| pkgs[pkg_of_module[ws.decls[d].module]].is_local).unwrap_or(true);
-        let locality = if local { if symbol.map(|d| pkg_of_module[ws.decls[d].module] == 1).unwrap_or(false) { "local-path-dep" } else { "local-root" } } else { "non-local" };
+        let locality = if free { "free-standing" } else if local { if symbol.map(|d| pkg_of_module[ws.decls[d].module] == 1).unwrap_or(false) { "local-path-dep" } else { "local-root" } } else { "non-local" };
         let kname = kind.map(kind_name).unwrap_or_else(|| what.to_string());
         let mut rp = replay_base.clone();
-        rp["occurrence"] = json!({"path": module_path(mi), "range": [occ.range.0, occ.range.1], "text": occ.ident.text, "site": occ.ident.site, "cursor": at});
+        rp["occurrence"] = json!({"path": if free { FREE.to_string() } else { module_path(mi) }, "range": [occ.range.0, occ.range.1], "text": occ.ident.text, "site": occ.ident.site, "cursor": at});
         let mut valid_ok: Option<bool> = None;
         for (cname, name) in &classes {
             rep.evaluations += 1;
@@ -798,7 +804,11 @@ fn run_c08_case(rep: &mut Report, ws: &Workspace, case_seed: u64, r: &mut Rng, p
                 Some(req) => lex_class(name) == req,
                 None => false,
             };
-            let must_refuse = what != "symbol" || alias_spelling || !local || !class_ok;
+            // in the free-standing copy imports do not resolve: only the name class is judged there
+            let must_refuse = if free { what == "symbol" && !class_ok } else { what != "symbol" || alias_spelling || !local || !class_ok };
+            if free && what != "symbol" {
+                continue;
+            }
             rep.see("cells", format!("{kname}:{cname}:{locality}{}", if alias_spelling { ":alias-spelling" } else { "" }));
             match &res {
                 Ok(we) => {
@@ -1013,6 +1023,49 @@ fn run_c18_case(rep: &mut Report, ws: &Workspace, case_seed: u64) {
                         format!("accepting `{label}` ({:?}) at hole `{}` inserts {:?}; goto on it gives {:?}, expected file {want_file} {want_focus:?}", it.kind, h.name, it.replace, other),
                         rp.clone(),
                     );
+                }
+            }
+        }
+    }
+    // The identifier being typed may, for the moment, spell a keyword (`use` on the way to `user`,
+    // `as` on the way to `assets`): whatever value names are offered then must still replace exactly
+    // that word. One hole per program is retyped as a keyword and asked again.
+    if let Some(h) = ws.holes.iter().filter(|h| h.range != (0, 0)).nth((case_seed % 7) as usize % ws.holes.len().max(1)) {
+        const TYPED: &[&str] = &["use", "as", "case", "fn", "let", "if", "pub", "type", "todo", "panic", "assert", "const", "import", "opaque"];
+        let kw = TYPED[(case_seed / 7) as usize % TYPED.len()];
+        let path = ws.path_of(h.module);
+        let mut files2 = files.clone();
+        let mut ok = false;
+        for f in files2.iter_mut() {
+            if f.0 == path && h.range.1 <= f.1.len() {
+                f.1 = format!("{}{}{}", &f.1[..h.range.0], kw, &f.1[h.range.1..]);
+                ok = true;
+            }
+        }
+        if ok {
+            let l2 = ws::load_single(&files2);
+            let an2 = l2.host.snapshot();
+            let f2 = l2.file_by_path(&path).unwrap();
+            let end = h.range.0 + kw.len();
+            let mut rp = json!({"kind":"workspace","files":files_json(&files2),"case_seed":case_seed.to_string()});
+            rp["typed"] = json!({"module": h.module, "range": [h.range.0, end], "word": kw});
+            if let Outcome::Ok(Ok(Some(items))) = panicmon::guard(|| an2.completions(FilePos::new(f2, TextSize::from(end as u32)), None)) {
+                rep.evaluations += 1;
+                rep.see("keyword_spelled_prefixes", kw);
+                for it in &items {
+                    if it.kind == ide::CompletionItemKind::Keyword {
+                        continue;
+                    }
+                    rep.count("keyword_prefix_items_checked", 1);
+                    let sr = (usize::from(it.source_range.start()), usize::from(it.source_range.end()));
+                    if sr != (h.range.0, end) {
+                        rep.violate(
+                            format!("completion-wrong-replace-range:typed-word-spells-a-keyword:{:?}", it.kind),
+                            format!("the word being typed is `{kw}` at {:?}; item `{}` replaces {sr:?}", (h.range.0, end), it.label),
+                            rp.clone(),
+                        );
+                        break;
+                    }
                 }
             }
         }
